@@ -96,3 +96,10 @@ Proof.
   unfold wsum. apply fold_add_zeros. intros x Hx. apply in_map_iff in Hx. destruct Hx as ([w c] & <- & Hin).
   apply in_combine_r in Hin. apply repeat_spec in Hin. subst. reflexivity.
 Qed.
+Lemma NoDup_app_one {A} (l : list A) x : NoDup l -> ~ In x l -> NoDup (l ++ [x]).
+Proof.
+  intros Hnd Hx. induction Hnd as [|y l Hy Hnd IH]; cbn [app]; [constructor; [intros []|constructor]|].
+  constructor.
+  - rewrite in_app_iff. intros [H|[H|[]]]; [contradiction|]. apply Hx. left. symmetry. exact H.
+  - apply IH. intros H. apply Hx. right. exact H.
+Qed.
